@@ -25,7 +25,8 @@ func init() {
 			bnd := orb.Bound{Min: orb.Point{-512, -256}, Max: orb.Point{512, 768}}
 			q := quadtree.New(bnd)
 			live := map[*qtPtr]bool{}
-			var all []*qtPtr
+			var all, twins []*qtPtr
+			var pairs [][2]*qtPtr // a stored point and its neighbour one float64 away
 			coord := func(lo, hi float64) float64 {
 				switch c.rng.Intn(5) {
 				case 0:
@@ -57,8 +58,33 @@ func init() {
 					sort.Float64s(ds)
 					return ds
 				}
-				for j := 0; j < 60; j++ {
+				// the two points of a pair, asked for from the origin and from next to it (their distances from there are about as
+				// large as their coordinates: the squared distances differ in the last place or two, the distances themselves
+				// often not at all): among the two - a filter lets only them through - the nearer one is the nearest
+				for j := 0; j < 60 && j < len(pairs); j++ {
+					pr := pairs[c.rng.Intn(len(pairs))]
+					if !live[pr[0]] || !live[pr[1]] {
+						continue
+					}
+					qp := []orb.Point{{0, 0}, {0.5, -0.25}, {math.Ldexp(1, -20), math.Ldexp(1, -20)}, {-1, 2}}[c.rng.Intn(4)]
+					d0, d1 := planar.DistanceSquared(pr[0].p, qp), planar.DistanceSquared(pr[1].p, qp)
+					got := q.Matching(qp, func(x orb.Pointer) bool { return x.(*qtPtr) == pr[0] || x.(*qtPtr) == pr[1] })
+					if got == nil || planar.DistanceSquared(got.Point(), qp) != math.Min(d0, d1) {
+						fail(phase + ": the nearer of two points one float64 apart")
+					}
+				}
+				for j := 0; j < 90; j++ {
 					qp := orb.Point{coord(-600, 600), coord(-300, 800)}
+					if j >= 60 {
+						// asked from a few whole units beside a pair of points that are one float64 apart: their squared distances
+						// differ by an ulp or two, their distances often not at all - the nearer one is still the nearer one
+						if len(twins) == 0 {
+							break
+						}
+						t := twins[c.rng.Intn(len(twins))]
+						off := [][2]float64{{3, 4}, {-4, 3}, {5, 12}, {-12, -5}, {8, 15}, {1, 1}, {-2, 7}, {0, 5}}[c.rng.Intn(8)]
+						qp = orb.Point{t.p[0] + off[0], t.p[1] + off[1]}
+					}
 					var accept func(*qtPtr) bool
 					var filter quadtree.FilterFunc
 					if j%3 == 0 {
@@ -142,10 +168,13 @@ func init() {
 				for j := 0; j < n; j++ {
 					p := &qtPtr{id: j + 1, p: orb.Point{coord(-512, 512), coord(-256, 768)}}
 					if j > 0 && c.rng.Intn(10) == 0 {
-						p.p = all[c.rng.Intn(len(all))].p // duplicates of stored points
+						orig := all[c.rng.Intn(len(all))]
+						p.p = orig.p            // duplicates of stored points
 						if c.rng.Intn(2) == 0 { // ... or its neighbour one float64 away in one coordinate: nearly the same distance from anywhere
 							ax := c.rng.Intn(2)
 							p.p[ax] = math.Nextafter(p.p[ax], []float64{0, 256}[ax]) // towards the middle: stays inside the bound
+							twins = append(twins, p)
+							pairs = append(pairs, [2]*qtPtr{orig, p})
 						}
 					}
 					all = append(all, p)
